@@ -516,6 +516,100 @@ theorem historical_keyword_collision :
     directCall exObj "echo" [] [("context", 0)] = .value 10 := by
   decide
 
+/-! ## `rpc_timeout` -/
+
+/-- the blocking stub keeps `rpc_timeout` for itself and forwards every other keyword unchanged -/
+theorem timeout_keyword_not_forwarded (kwargs : List (String × V)) :
+    stubKwargs .blocking [] kwargs = .ok (kwargs.filter (fun kv => kv.1 != timeoutKw)) := by
+  simp [stubKwargs]
+
+/-- the non-blocking stub refuses `rpc_timeout` (`RuntimeError`) before anything is sent -/
+theorem nonblocking_timeout_keyword_rejected (pl : Placement) (P : Pickle V W) (X : Excs V) (cli srv : Node)
+    (cc sc : Conn) (o : Obj V) (iface : List String) (futureAddr objAddr : Addr) (rid attr : String) (args : List V)
+    (kwargs : List (String × V)) (token : Option Token) (hattr : attr ∈ iface)
+    (hto : ∃ kv ∈ kwargs, kv.1 = timeoutKw) :
+    proxyCall pl P X .nonBlocking [] cli srv cc sc o (mkStubs iface) futureAddr objAddr rid attr args kwargs token
+      = .stubError .runtimeError := by
+  have hstub := stub_sends_own_name iface attr hattr
+  have hk : stubKwargs .nonBlocking [] kwargs = .error .runtimeError := by
+    obtain ⟨kv, hkv, hkey⟩ := hto
+    have : kwargs.any (fun kv => kv.1 == timeoutKw) = true := List.any_eq_true.2 ⟨kv, hkv, by simpa using hkey⟩
+    simp [stubKwargs, this]
+  cases pl <;> simp only [proxyCall, localCall, peerCall, hstub, hk]
+
+/-- **A blocking call with `rpc_timeout=t` that completes in time** equals the direct call *without* that keyword, for
+both placements — whatever else is in `kwargs` -/
+theorem proxy_with_timeout_eq_direct (pl : Placement) (P : Pickle V W) (X : Excs V)
+    (cli srv : Node) (cc sc : Conn) (o : Obj V) (iface : List String) (futureAddr objAddr : Addr) (rid attr : String)
+    (args : List V) (kwargs : List (String × V)) (token : Option Token) (f : List V → List (String × V) → Res V)
+    (hwf : WellFormed pl cli srv cc sc futureAddr objAddr)
+    (hattr : attr ∈ iface) (hm : o.methods attr = some f) (hlock : o.lock = none ∨ o.lock = token)
+    (hp : ∀ v ∈ args ++ (kwargs.filter (fun kv => kv.1 != timeoutKw)).map (·.2), P.decode (P.encode v) = some v)
+    (hres : ∀ v, (f args (kwargs.filter (fun kv => kv.1 != timeoutKw)) = .value v ∨
+                  f args (kwargs.filter (fun kv => kv.1 != timeoutKw)) = .exc v) → P.decode (P.encode v) = some v) :
+    proxyCall pl P X .blocking [] cli srv cc sc o (mkStubs iface) futureAddr objAddr rid attr args kwargs token
+      = directCall o attr args (kwargs.filter (fun kv => kv.1 != timeoutKw)) := by
+  have hsame : proxyCall pl P X .blocking [] cli srv cc sc o (mkStubs iface) futureAddr objAddr rid attr args kwargs token
+      = proxyCall pl P X .blocking [] cli srv cc sc o (mkStubs iface) futureAddr objAddr rid attr args
+          (kwargs.filter (fun kv => kv.1 != timeoutKw)) token := by
+    cases pl <;>
+      simp only [proxyCall, localCall, peerCall, timeout_keyword_not_forwarded, List.filter_filter, Bool.and_self]
+  rw [hsame]
+  exact proxy_eq_direct_for_params pl P X .blocking [] cli srv cc sc o iface futureAddr objAddr rid attr args _ token f
+    hwf hattr hm hlock (fun _ _ h => by cases h)
+    (fun kv hkv => by have := (List.mem_filter.1 hkv).2; simpa using this) hp hres
+
+/-- a call whose deadline passes first raises `QMI_RpcTimeoutException`; a result that is already there is returned -/
+theorem deadline_outcome (f : FutSt V) :
+    waitUntilDeadline f = match f with | .noResult => .timedOut | g => wait g := by
+  cases f <;> rfl
+
+private theorem updFirst_absent (k : String) (g : FutSt V → FutSt V) (l : List (String × FutSt V))
+    (h : ∀ e ∈ l, e.1 ≠ k) : updFirst k g l = l := by
+  induction l with
+  | nil => rfl
+  | cons hd tl ih =>
+    obtain ⟨k0, f0⟩ := hd
+    have h0 : k0 ≠ k := h (k0, f0) List.mem_cons_self
+    simp only [updFirst, h0, if_false]
+    rw [ih (fun e he => h e (List.mem_cons_of_mem _ he))]
+
+/-- **The late reply of a timed-out call is discarded without affecting any other caller**: once `wait` has
+unregistered the future, a message addressed to it changes nothing in the caller's context -/
+theorem late_reply_discarded (X : Excs V) (c : Client V) (m : Msg V) :
+    ((c.unregister m.dst.obj).deliverReply X m).futs = (c.unregister m.dst.obj).futs := by
+  unfold Client.deliverReply
+  split
+  · rfl
+  · simp only [Client.unregister]
+    apply updFirst_absent
+    intro e he
+    have := (List.mem_filter.1 he).2
+    simpa using this
+
+/-- … and unregistering the timed-out future leaves every other future as it was -/
+theorem unregister_keeps_others (c : Client V) (k k' : String) (h : k' ≠ k) :
+    lookupFut k' (c.unregister k).futs = lookupFut k' c.futs := by
+  simp only [Client.unregister]
+  induction c.futs with
+  | nil => rfl
+  | cons hd tl ih =>
+    obtain ⟨k0, f0⟩ := hd
+    by_cases h0 : k0 = k
+    · subst h0
+      have h1 : ¬ k0 = k' := fun e => h e.symm
+      simp only [List.filter_cons, bne_self_eq_false, Bool.false_eq_true, if_false, lookupFut, h1]
+      exact ih
+    · have hb : (k0 != k) = true := by simpa using h0
+      by_cases h1 : k0 = k'
+      · subst h1
+        simp only [List.filter_cons, hb, if_true, lookupFut]
+      · simp only [List.filter_cons, hb, if_true, lookupFut, h1, if_false]
+        exact ih
+
+example : waitUntilDeadline (.noResult : FutSt Nat) = .timedOut ∧
+    waitUntilDeadline (.set .value (some 3) : FutSt Nat) = .value 3 := by decide
+
 /-! ## replies go to the requesting future, under any number of concurrent callers -/
 
 private theorem lookupFut_updFirst (k k' : String) (g : FutSt V → FutSt V) (l : List (String × FutSt V)) :
